@@ -847,7 +847,18 @@ func c15r4(c *Ctx) {
 	fn := del.Call.Fn
 	c.Visit(fn)
 	X, _ := c15IsPhaseObject(del.Obj)
-	delCall, _ := del.Call.Instr.(*ssa.Call)
+	// every Delete of the phase object in the function: one statement of the source may exist in
+	// several copies (the code after a merged multi-return helper is copied per helper return)
+	var dels []WriterSite
+	var delCalls []*ssa.Call
+	for _, ws := range allWriterSites([]*ssa.Function{fn}) {
+		if ws.Verb == "Delete" && p.sameValue(ws.Obj, del.Obj) {
+			dels = append(dels, ws)
+			if dc, ok := ws.Call.Instr.(*ssa.Call); ok {
+				delCalls = append(delCalls, dc)
+			}
+		}
+	}
 	// the read of the phase object
 	var get *ssa.Call
 	for _, cc := range callsIn(fn) {
@@ -898,7 +909,9 @@ func c15r4(c *Ctx) {
 		return ok
 	}
 	// delete guard
-	{
+	isDel := map[ssa.Instruction]bool{}
+	for _, del := range dels {
+		isDel[del.Call.Instr] = true
 		o := c.Ob(fn, "delete-guard", del.Call.Instr, "the phase object is deleted only when it was read without error by its deterministic name and is controlled by the ObjectSet")
 		fs := p.FactsAt(del.Call.Block())
 		var problems []string
@@ -931,7 +944,7 @@ func c15r4(c *Ctx) {
 	}
 	// other writes
 	for _, ws := range allWriterSites([]*ssa.Function{fn}) {
-		if ws.Call.Instr == del.Call.Instr {
+		if isDel[ws.Call.Instr] {
 			continue
 		}
 		o := c.Ob(fn, "other-write-"+ws.Verb, ws.Call.Instr, "any other write during remote teardown touches only the phase object it controls")
@@ -951,7 +964,18 @@ func c15r4(c *Ctx) {
 			c.Ob(fn, "return-unresolved", rc.Ret, "done result must be resolvable").Unknown("several values may flow into the done result at %s", p.IPos(rc.Ret))
 			continue
 		}
-		afterDelete := delCall != nil && p.errOfCall(rc.Facts, delCall) == yesTri
+		if pfDeadByFacts(rc.Facts) {
+			continue // copy of a continuation that the helper return it was made for never takes
+		}
+		afterDelete, deleteNotFound := false, false
+		for _, delCall := range delCalls {
+			if p.errOfCall(rc.Facts, delCall) == yesTri {
+				afterDelete = true
+			}
+			if notFoundOf(rc.Facts, delCall) {
+				deleteNotFound = true
+			}
+		}
 		if b, isConst := constBool(r0); isConst {
 			if !b {
 				if afterDelete {
@@ -967,7 +991,7 @@ func c15r4(c *Ctx) {
 				c.Ob(fn, "done-unjustified", rc.Ret, stmt).Fail("returns done=true right after a successful Delete (the phase object and its children may still exist)")
 			case notFoundOf(rc.Facts, get):
 				c.Ob(fn, "done-get-notfound", rc.Ret, stmt).OK("T:IsNotFound(Get)")
-			case notFoundOf(rc.Facts, delCall):
+			case deleteNotFound:
 				c.Ob(fn, "done-delete-notfound", rc.Ret, stmt).OK("T:IsNotFound(Delete)")
 			case holdsAtReturn(rc, func(fs []Fact) bool { return controlled(fs, false) }) && get != nil && p.errOfCallIsNil(rc.Facts, get):
 				c.Ob(fn, "done-orphaned", rc.Ret, stmt).OK("F:IsControlledBy (orphaned phase)")
@@ -1473,8 +1497,14 @@ func c15r6(c *Ctx) {
 						kinds := map[string]bool{}
 						for _, v := range s.values(arg) {
 							if wk, _ := asCall(v); wk != nil && calleeName(wk.Common()) == "WithKind" {
-								if k, ok := constString(callArgs(wk.Common())[0]); ok {
-									kinds[k] = true
+								// the kind is a constant per scope, or one variable that holds either
+								// (`kind := "A"; if cluster { kind = "B" }; gv.WithKind(kind)`)
+								for _, kv := range s.values(callArgs(wk.Common())[0]) {
+									if k, ok := constString(kv); ok {
+										kinds[k] = true
+									} else {
+										kinds["?"+p.describe(kv)] = true
+									}
 								}
 							}
 						}
